@@ -115,7 +115,7 @@ pub struct Features {
     pub modify_traded: u64,
     pub resets: u64,
     /// redundant request counts: [kind 0=place,1=cancel,2=modify][status code]
-    pub redundant: [[u64; 5]; 3],
+    pub redundant: [[u64; 6]; 3],
     pub redundant_terminal_nonempty: bool,
     pub ties_created: u64,
     pub tie_touched: bool,
@@ -125,7 +125,7 @@ pub struct Features {
     pub reloads: u64,
     pub snapshot_deep_queue: bool,
     pub snapshot_queue_traded: bool,
-    pub snapshot_statuses: [bool; 5],
+    pub snapshot_statuses: [bool; 6],
     pub offgrid_create: u64,
     pub offgrid_create_nonempty: bool,
     pub offgrid_modify: u64,
@@ -1140,6 +1140,7 @@ impl<'a> Run<'a> {
                 St::Filled => self.trading,
                 St::Cancelled => market && self.trading,
                 St::Rejected => market && !self.trading,
+                St::Other => false,
             };
             if !ok {
                 return f(self, "C04 illegal status transition", format!("New -> {:?} (market order: {})", b, market));
